@@ -698,6 +698,7 @@ def run(chk):   # noqa
     types = _optables_rule(chk, prog)
     _emitform_rule(chk, prog, types)
     _srcmap_rule(chk, prog)
+    _mapform_rule(chk, prog)
     _closureflag_rule(chk, prog)
     _wrflag_rule(chk, prog)
     _sloteq_rule(chk, prog)
@@ -709,6 +710,128 @@ def run(chk):   # noqa
     _pairloop_rule(chk, Program.load("default"))
     _nilfold_rule(chk, prog)
     _pusharity_rule(chk, prog)
+    from rules import c02_boot
+    c02_boot.run(chk)
+
+
+def _mapform_rule(chk, prog):
+    """An error is attributed to the form that raised it because (1) macroexpand1 moves the compiler's source cursor
+    to every non-empty tuple form it is shown - before any of its early exits - and (2) janetc_value saves the
+    cursor on entry and puts it back after the last instruction of the form has been emitted."""
+    rule = "C02-MAPFORM"
+    chk.rule(rule, "macroexpand1 considers the form's source position on every path that has established a non-empty tuple; "
+                   "janetc_value restores the saved cursor on every normal exit and emits nothing afterwards")
+    fn = prog.need_func("macroexpand1", "compile.c")
+    chk.analysed(fn)
+
+    def head_field(x, field):
+        return x.k == "mem" and x.field == field and x.rec == "JanetTupleHead"
+
+    def reads_sm(x):
+        return any(head_field(y, "sm_line") for y in x.walk())
+    writes = [x for x in fn.nodes if x.k == "asg" and x.kids[0].k == "mem" and x.kids[0].field == "line"
+              and "current_mapping" in x.kids[0].text() and reads_sm(x.kids[1])]
+    if not writes:
+        raise AnalysisBroken("macroexpand1 no longer copies the form's sm_line into c->current_mapping")
+
+    def transfer(st, x):
+        if reads_sm(x):
+            return st | {"M"}
+        return st
+
+    def edge(st, blk, succ, cond, truth):
+        if cond is None:
+            return st
+        c, t = flow.strip_not(cond, truth)
+        if c.k == "bin" and c.op in ("==", "!=") and any(head_field(y, "length") for y in c.kids[0].walk()) \
+                and c.kids[1].text().strip() == "0":
+            if (c.op == "==") != t:
+                return st | {"L"}
+        return st
+    IN, OUT, T = flow.forward_paths(fn, frozenset(), transfer, edge)
+    nz = False
+    bad = None
+    for b, kind in flow.exits(fn):
+        if kind != "return" or b.id not in OUT:
+            continue
+        for ps in OUT[b.id]:
+            if "L" in ps:
+                nz = True
+                if "M" not in ps:
+                    bad = b
+    if not nz:
+        raise AnalysisBroken("macroexpand1: the non-empty-tuple test was not recognised")
+    chk.instance(rule)
+    if bad is not None:
+        last = bad.elems[-1] if bad.elems else fn
+        chk.violation(rule, "compile.c", fn.name, "cursor", last.loc,
+                      "macroexpand1 can return (near %s) for a non-empty tuple form without having looked at the form's source "
+                      "position (the copy at %s is not on this path): the instructions compiled for that form - a call whose head "
+                      "is not a symbol, a bracket tuple - are recorded under the position of the enclosing form, and an error they "
+                      "raise is attributed to the wrong line and column" % (last.loc, writes[0].loc))
+    else:
+        chk.ok(rule, "macroexpand1: every return for a non-empty tuple passes the source-position copy at %s" % writes[0].loc)
+    # (2) janetc_value
+    fv = prog.need_func("janetc_value", "compile.c")
+    chk.analysed(fv)
+    saves = [x for x in fv.nodes if x.k == "decl" and "current_mapping" in x.text()]
+    local = None
+    for d in saves:
+        for y in d.walk():
+            if y.k == "vardecl":
+                local = y.name
+    if not local:
+        raise AnalysisBroken("janetc_value no longer saves c->current_mapping in a local")
+
+    def is_restore(x):
+        return (x.k == "asg" and x.op == "=" and x.kids[0].k == "mem" and x.kids[0].field == "current_mapping"
+                and is_ref(strip_casts(x.kids[1]), local))
+
+    def vtransfer(st, x):
+        if is_restore(x):
+            return (st | {"R"}) - {"after"}
+        if x.k == "call":
+            if x.callee == "macroexpand1":
+                st = st | {"X"}
+            if x.callee == "janetc_cerror":
+                st = st | {"E"}
+            if "R" in st:
+                st = st | {"after:" + str(x.callee)}
+        return st
+
+    def vedge(st, blk, succ, cond, truth):
+        if cond is None:
+            return st
+        c, t = flow.strip_not(cond, truth)
+        if c.k == "bin" and c.op in ("==", "!=") and "JANET_COMPILE_ERROR" in c.text():
+            if (c.op == "==") == t:
+                return st | {"E"}
+        return st
+    IN, OUT, T = flow.forward_paths(fv, frozenset(), vtransfer, vedge)
+    chk.instance(rule)
+    bad = None
+    normal = 0
+    for b, kind in flow.exits(fv):
+        if kind != "return" or b.id not in OUT:
+            continue
+        for ps in OUT[b.id]:
+            if "X" in ps and "E" not in ps:
+                normal += 1
+                late = [a for a in ps if a.startswith("after:")]
+                if "R" not in ps:
+                    bad = (b, "without putting the saved source cursor back: the rest of the enclosing form is compiled under "
+                              "this form's position")
+                elif late:
+                    bad = (b, "after calling %s once the cursor was put back: what that call emits is attributed to the enclosing form"
+                           % ", ".join(sorted(a[6:] for a in late)))
+    if not normal:
+        raise AnalysisBroken("janetc_value: no normal exit after macroexpand1 recognised")
+    if bad:
+        last = bad[0].elems[-1] if bad[0].elems else fv
+        chk.violation(rule, "compile.c", fv.name, "restore", last.loc, "janetc_value can return (near %s) %s" % (last.loc, bad[1]))
+    else:
+        chk.ok(rule, "janetc_value: saved cursor `%s` restored on every normal exit, nothing emitted afterwards" % local)
+    chk.floor(rule, 2)
 
 
 def _nilfold_rule(chk, prog, rule="C02-NILFOLD"):
